@@ -6,6 +6,7 @@ import (
 	"bytes"
 	"encoding/json"
 	"fmt"
+	"io"
 	"os"
 	"path/filepath"
 	"testing"
@@ -154,6 +155,30 @@ func checkC06(c C06Case, o *Obs) error {
 			schedules++
 			if err := compare2(codec, crlf, got, sizes, limit); err != nil {
 				return fmt.Errorf("%s: CRLF rendering: %v", c.Format, err)
+			}
+		}
+	}
+
+	// Readers in use at the same time (paired files read in lockstep): a reader over these
+	// bytes, one over other data of the same format (a fixed small input repeated until it is
+	// longer than this one) that starts one item later, and a third over these bytes again,
+	// two items behind and fed in other chunk sizes. Each yields what it yields alone.
+	{
+		o.Class("lockstep readers")
+		small := smallInputs[c.Format][len(text)%len(smallInputs[c.Format])]
+		other := bytes.Repeat([]byte(small), len(text)/max(1, len(small))+2)
+		otherBase, oover, op := collect(func(cb func(Item) bool) { codec.Reader(bytes.NewReader(other), cb) }, len(other)+16)
+		if op == nil && !oover {
+			got, p := lockstep(codec, []io.Reader{bytes.NewReader(text), bytes.NewReader(other),
+				&fault.Chunked{Data: text, Sizes: c.Chunks, EOFWithData: c.EOFWithData}}, max(limit, len(other)+16))
+			if p != nil {
+				return fmt.Errorf("%s: three readers advanced in turn: %v (input %s, second reader's input %s)", c.Format, p, gen.Abbrev(text), gen.Abbrev(other))
+			}
+			for i, want := range [][]Item{base, otherBase, base} {
+				if !sameKeys(got[i], want) {
+					return fmt.Errorf("%s: with three readers advanced in turn (first and third over this input, second over %s), reader %d yields %s, but alone it yields %s (input %s)",
+						c.Format, gen.Abbrev(other), i+1, describeItems(got[i]), describeItems(want), gen.Abbrev(text))
+				}
 			}
 		}
 	}
